@@ -949,6 +949,19 @@ def S3_normalisation(rep, flow: Flow):
     else:
         rep.finding("S3", f"{A_DENSITY}:accumulate", f"{pyfacts.where(f, acc)}: the matrix is not accumulated as += P * <P> [{pyfacts.norm_stmt(acc)}]")
     mat = acc.target.id
+    # the sum starts from nothing: the accumulator's initial value is an all-zero array (or the number 0)
+    inits = [st for st in f.node.body if isinstance(st, (ast.Assign, ast.AnnAssign)) and isinstance(getattr(st, "target", None) or st.targets[0], ast.Name)
+             and (getattr(st, "target", None) or st.targets[0]).id == mat]
+    if len(inits) == 1 and inits[0].value is not None:
+        iv = inits[0].value
+        zero = (isinstance(iv, ast.Call) and ast.unparse(iv.func).split(".")[-1] in ("zeros", "zeros_like")) or (isinstance(iv, ast.Constant) and iv.value in (0, 0.0, 0j))
+        nonzero = isinstance(iv, ast.Call) and ast.unparse(iv.func).split(".")[-1] in ("ones", "ones_like", "eye", "identity", "full", "empty", "empty_like")
+        if zero:
+            rep.ok("S3", 1, nontrivial="init", sample=pyfacts.norm_stmt(inits[0])[:80])
+        elif nonzero:
+            rep.finding("S3", f"{A_DENSITY}:init", f"{pyfacts.where(f, inits[0])}: the accumulated matrix does not start at zero [{pyfacts.norm_stmt(inits[0])[:100]}]: the result is the sum of <P>*P plus whatever the initial array holds")
+        else:
+            raise AnalysisError(f"{pyfacts.where(f, inits[0])}: initial value of the accumulated matrix is outside S3's vocabulary [{pyfacts.norm_stmt(inits[0])[:80]}]")
     nqs = [n for n in ast.walk(f.node) if isinstance(n, ast.Assign) and isinstance(n.targets[0], ast.Name) and isinstance(n.value, ast.Call) and isinstance(n.value.func, ast.Name) and n.value.func.id == "len"]
     nq = nqs[0].targets[0].id if nqs else None
     factor_nodes = []
